@@ -245,6 +245,20 @@ def handle (j : Json) : R Json := do
   | "stacktaus" =>
       let ts := stackTaus (← jflt j "r") (← jflt j "rho") (← jnat j "layers")
       pure (Json.mkObj [("taus", Json.arr (ts.map fun (a, b) => Json.arr #[fbits a, fbits b]).toArray)])
+  | "validate" =>
+      let fn ← jstr j "fn"
+      let pos ← (← jarr j "pos").toList.mapM fun v => match v.getStr? with
+        | .ok s => pure s | .error e => .error e
+      let kw ← (← jarr j "kw").toList.mapM fun kv => match kv.getArr? with
+        | .ok #[a, b] => pure ((a.getStr?.toOption.getD ""), (b.getStr?.toOption.getD ""))
+        | _ => .error "bad kw"
+      match sigOf fn with
+      | none => pure (Json.mkObj [("sig", Json.null)])
+      | some sig =>
+        match validate sig pos kw with
+        | .ok () => pure (Json.mkObj [("ok", jn 1), ("args", Json.arr (sig.args.map Json.str).toArray),
+            ("unsupported", Json.arr (sig.unsupported.map fun (a, b) => Json.arr #[Json.str a, Json.str b]).toArray)])
+        | .error e => pure (jerr e)
   | "groups" => groupsCmd j
   | "zerostep" =>
       let lr ← jflt j "lr"; let wd ← jflt j "wd"; let p ← jflt j "p"
